@@ -11,7 +11,7 @@
 (*   call : [op |-> ..., args]                                             *)
 (*   o    : outcome                                                        *)
 (***************************************************************************)
-EXTENDS MB2Builder, TLC
+EXTENDS MB2TypeIds, TLC
 
 Props == {"C01", "C02", "C03", "C04", "C05", "C06", "C07", "C08", "C09", "C10",
           "C11", "C12", "C13", "C14", "C15", "C16", "C17", "C18", "C19", "C20"}
@@ -414,6 +414,14 @@ C12_Accept(c, trk, call, o) ==
     [] call.op = "hb_load" -> IF trk.hbuilt = <<>> THEN TRUE ELSE o.k = "ok" /\ o.v.length = U32Bytes(Len(trk.hbuilt))
     [] OTHER -> TRUE
 
+\* ---- C20 -------------------------------------------------------------------------------------------------
+C20_Accept(c, trk, call, o) ==
+  CASE call.op = "conv_tag_type" -> AcceptConvTagType(call.x, call.y, o)
+    [] call.op = "conv_mem_area_type" -> AcceptConvMemArea(call.x, call.y, o)
+    [] call.op = "conv_elf_type" -> AcceptConvElf(call.x, o)
+    [] call.op = "magic" -> AcceptMagic(o)
+    [] OTHER -> TRUE
+
 \* ---- C01: never outside the region, never a crash, references inside the owning tag ------------
 InfoOps == {"load", "tags", "module_tags", "efi_areas", "elf_sections", "elf_sections_deprecated", "next", "clone",
             "len", "size_hint", "get", "field", "str", "area", "dbg", "elf_field", "elf_name"}
@@ -602,6 +610,18 @@ DesignStep(c, ds, call) ==
          [o |-> IF ds.built = <<>> THEN Skipped ELSE Ok([total |-> Len(ds.built)]), ds |-> ds]
     [] call.op = "hb_load" ->
          [o |-> IF ds.hbuilt = <<>> THEN Skipped ELSE Ok([length |-> U32Bytes(Len(ds.hbuilt))]), ds |-> ds]
+    [] call.op = "conv_tag_type" ->
+         LET v == TagTypeVariant(call.x)  e == IF call.x = call.y THEN 1 ELSE 0 IN
+         [o |-> [k |-> "conv", variant |-> v, via_id |-> v, back |-> call.x, val |-> call.x, id_back |-> call.x, id_new |-> call.x,
+                 via_id_back |-> call.x, custom_payload |-> IF v = "Custom" THEN call.x ELSE <<>>, eqs |-> [i \in 1..8 |-> e]], ds |-> ds]
+    [] call.op = "conv_mem_area_type" ->
+         LET v == MemAreaVariant(call.x)  e == IF call.x = call.y THEN 1 ELSE 0 IN
+         [o |-> [k |-> "conv", variant |-> v, back |-> call.x, id_back |-> call.x,
+                 custom_payload |-> IF v = "Custom" THEN call.x ELSE <<>>, eqs |-> [i \in 1..4 |-> e]], ds |-> ds]
+    [] call.op = "conv_elf_type" ->
+         LET r == RowOf(ElfTypeTable, call.x) IN      \* the design classifies by the interval table
+         [o |-> IF r.class = "used" THEN [k |-> "conv", class |-> "used", disc |-> r.disc] ELSE [k |-> "conv", class |-> "unused"], ds |-> ds]
+    [] call.op = "magic" -> [o |-> [k |-> "conv", info |-> InfoMagic, header |-> HdrMagic, htag_count |-> W(11)], ds |-> ds]
     [] call.op = "hload" ->
          LET r == DesignHLoad(IsNull(call), c.mem) IN
          [o |-> r, ds |-> [ds EXCEPT !.loaded = IF r.k = "ok" THEN "hdr" ELSE "none"]]
@@ -640,6 +660,7 @@ AcceptP(p, c, trk, call, o) ==
     [] p = "C07" -> C07_Accept(c, trk, call, o)
     [] p = "C12" -> C12_Accept(c, trk, call, o)
     [] p = "C16" -> C16_Accept(c, trk, call, o)
+    [] p = "C20" -> C20_Accept(c, trk, call, o)
     [] p = "C09" -> C09_Accept(c, trk, call, o)
     [] p = "C10" -> C10_Accept(c, trk, call, o)
     [] p = "C11" -> C11_Accept(c, trk, call, o)
